@@ -156,8 +156,8 @@ func (h *Handler) newConn(cx *layer4.Connection) *proxyprotocol.Conn {
 
 // Handle handles the connections.
 func (h *Handler) Handle(cx *layer4.Connection, next layer4.Handler) error {
-	conn := h.newConn(cx)
-	if conn == nil {
+	pconn := h.newConn(cx)
+	if pconn == nil {
 		h.logger.Debug("untrusted party not allowed",
 			zap.String("remote", cx.RemoteAddr().String()),
 			zap.Strings("allow", h.Allow),
@@ -165,9 +165,13 @@ func (h *Handler) Handle(cx *layer4.Connection, next layer4.Handler) error {
 		return next.Handle(cx)
 	}
 
-	if _, err := conn.ProxyHeader(); err != nil {
+	if _, err := pconn.ProxyHeader(); err != nil {
 		return fmt.Errorf("parsing the PROXY header: %v", err)
 	}
+
+	// The header may declare no addresses (v1 "PROXY UNKNOWN"): the real ones stay in force.
+	conn := &proxyConn{Conn: pconn, under: cx}
+
 	h.logger.Debug("received the PROXY header",
 		zap.String("remote", conn.RemoteAddr().String()),
 		zap.String("local", conn.LocalAddr().String()),
@@ -184,6 +188,47 @@ func (h *Handler) Handle(cx *layer4.Connection, next layer4.Handler) error {
 	}
 
 	return next.Handle(cx.Wrap(conn))
+}
+
+// proxyConn is the connection handed to the next handlers: the PROXY protocol
+// connection of the library, except that an address the header does not declare
+// (the library reports one without IP after a v1 "PROXY UNKNOWN" header) is
+// answered with the address of the connection the header was received on, as
+// the PROXY protocol specification asks for.
+type proxyConn struct {
+	*proxyprotocol.Conn
+	under *layer4.Connection
+}
+
+// declaredAddr tells whether a is an address a PROXY header can have declared.
+func declaredAddr(a net.Addr) bool {
+	switch x := a.(type) {
+	case nil:
+		return false
+	case *net.TCPAddr:
+		return x != nil && len(x.IP) > 0
+	case *net.UDPAddr:
+		return x != nil && len(x.IP) > 0
+	}
+	return true
+}
+
+// RemoteAddr returns the source address declared by the PROXY header, if any,
+// and the remote address of the underlying connection otherwise.
+func (c *proxyConn) RemoteAddr() net.Addr {
+	if a := c.Conn.RemoteAddr(); declaredAddr(a) {
+		return a
+	}
+	return c.under.RemoteAddr()
+}
+
+// LocalAddr returns the destination address declared by the PROXY header, if any,
+// and the local address of the underlying connection otherwise.
+func (c *proxyConn) LocalAddr() net.Addr {
+	if a := c.Conn.LocalAddr(); declaredAddr(a) {
+		return a
+	}
+	return c.under.LocalAddr()
 }
 
 // UnmarshalCaddyfile sets up the Handler from Caddyfile tokens. Syntax:
